@@ -54,6 +54,47 @@ def build(pcirc, extra, mons):
     return child, parent, sts
 
 
+def ptree(pcirc, extra, which):
+    """the circuit of `build` as the request of the driver ops phsolve / phsweep (child alone, or the parent holding it)"""
+    def leaf(c):
+        k = len(c["pins"])
+        return {"leaf": {"pins": list(c["pins"]), "idx": list(c["idx"]), "S0": gen.mat_json(c["S0"]), "S1": gen.mat_json(c["S1"]),
+                         "param": c["param"], "dflt": [gen.frac_str(Fraction(c["default"])), "0/1"]}}
+    child = {"children": [[[], leaf(c)] for c in pcirc["comps"]],
+             "links": [{"a": a, "p": p_, "b": b, "q": q_} for (a, p_, b, q_) in pcirc["links"]],
+             "exposed": [{"name": nm, "c": c, "p": p_} for (nm, c, p_) in pcirc["exposed"]]}
+    if which == "child":
+        return child
+    names = cs.exposed_names(pcirc)
+    return {"children": [[[], child], [[], leaf(extra)]],
+            "links": [{"a": 0, "p": names[0], "b": 1, "q": extra["pins"][0]}] if names else [],
+            "exposed": [{"name": "P_" + nm, "c": 0, "p": nm} for nm in names[1:]] + [{"name": "P_" + p_, "c": 1, "p": p_} for p_ in extra["pins"][1:]]}
+
+
+def model_tie(ctx, pcirc, extra, which, kw, names, S, rep):
+    """the answer of a solve in the middle of a history against the end-to-end model, a function of (circuit, call) alone"""
+    if extra.get("defs") or len(pcirc["comps"]) > 5:
+        return
+    req = {"op": "phsweep", "tree": ptree(pcirc, extra, which),
+           "kw": [[k, [[gen.frac_str(Fraction(float(x)).limit_denominator(1 << 20)), "0/1"] for x in np.atleast_1d(v)]] for k, v in kw.items()]}
+    ans = ctx.driver.ask(req)
+    if "points" not in ans or len(ans["points"]) != S.shape[0]:
+        ctx.disagreement("C06.model.pure-function", f"model: {str(ans)[:80]}", rep)
+        return
+    n = len(names)
+    for k, pt in enumerate(ans["points"]):
+        if "T" not in pt or sorted(pt["pins"]) != sorted(names):
+            continue
+        o = [pt["pins"].index(x) for x in names]
+        T = gen.json_mat_np([z for row in pt["T"] for z in row], n, n) if n else np.zeros((0, 0), complex)
+        T = T[np.ix_(o, o)] if n else T
+        ctx.tag("model:pure-function")
+        if T.size and float(np.max(np.abs(T - S[k]))) > 1e-9:
+            ctx.disagreement("C06.model.pure-function", f"{which}.solve({sorted(kw)}) in the middle of a history differs from the model's function of the "
+                             f"circuit and the call at sweep point {k}", rep)
+            return
+
+
 def circuit_snapshot(sol):
     ids = {id(s): k for k, s in enumerate(sol.structures)}
     key = lambda t: (ids.get(id(t[0]), "?"), t[1].name)
@@ -154,6 +195,8 @@ def run_history(ctx, pcirc, extra, steps, replay):
                 ctx.violation(sig, f"a valid solve raised {type(e).__name__}: {str(e)[:70]} (history {[s[0] for s in done]})", rep)
                 return False
             val = grab(mod, names, exc)
+            if len(done) <= 4:
+                model_tie(ctx, pcirc, extra, step[1], kw, names, val["S"], rep)
             # purity: the same call on a freshly built copy of the circuit
             try:
                 fc, fp, _ = build(pcirc, extra, mons)
